@@ -8,10 +8,13 @@ package main
 import (
 	"bufio"
 	"context"
+	"crypto/sha256"
 	"encoding/json"
 	"errors"
 	"flag"
 	"fmt"
+	"github.com/bartossh/Computantis/src/wallet"
+	"github.com/mr-tron/base58"
 	"google.golang.org/grpc"
 	"os"
 	"sort"
@@ -528,6 +531,40 @@ func main() {
 			}
 			if k == nf {
 				break
+			}
+		}
+	}
+	// ---- the REAL signature verifier behind every handler (the handlers above run against a stub of it): caller-supplied
+	// address strings whose base58 decoding has every short length, with a digest that matches the data (the verifier looks at the
+	// address only then), a few signature lengths; the verifier may refuse, it must not panic
+	{
+		ver := wallet.NewVerifier()
+		data := []byte("request")
+		digest := sha256.Sum256(data)
+		for n := 0; n <= 40; n++ {
+			for fill := 0; fill < 3; fill++ {
+				raw := make([]byte, n)
+				for i := range raw {
+					raw[i] = byte(fill * 127)
+				}
+				addr := base58.Encode(raw)
+				for _, sl := range []int{0, 1, 63, 64, 65} {
+					panicked := ""
+					func() {
+						defer func() {
+							if r := recover(); r != nil {
+								panicked = fmt.Sprint(r)
+							}
+						}()
+						ver.Verify(data, make([]byte, sl), digest, addr)
+					}()
+					sum.Evaluations++
+					sum.Kinds["verifier.address_sweep"]++
+					if panicked != "" && !violSeen["panic:verifier"] {
+						violSeen["panic:verifier"] = true
+						sum.Violations = append(sum.Violations, Violation{"panic:verifier", fmt.Sprintf("the signature verifier every handler calls panics (%s) on the caller-supplied address %q (decodes to %d bytes), signature of %d bytes", panicked, addr, n, sl)})
+					}
+				}
 			}
 		}
 	}
